@@ -1,21 +1,22 @@
 // Command sige2e composes the REAL signaling clients of two peers with the REAL relay server
 // through in-memory SRPC stream pairs and checks C21 / C23 end to end on what the applications
 // observe, while the relay's critical sections are still replayed on the Lean model (so the
-// composed run is a run of the proven server LTS). Faults: the receiving peer drops and
-// re-acquires its session (re-attach => new epoch) while sends are in flight.
+// composed run is a run of the proven server LTS). Both peers send and receive. Faults: a peer
+// drops and re-acquires its session (re-attach => new epoch) while sends are in flight; the stream
+// of either peer dies silently with a relayed message in flight (reconnect while the relay still
+// holds the old stream: the usurp path); callers give up on a Send after 1-3 ms.
 package main
 
 import (
-	"bytes"
 	"context"
 	"fmt"
 	"io"
 	"sort"
+	"strconv"
 	"strings"
 	"sync"
 	"time"
 
-	"github.com/aperturerobotics/bifrost/crypto"
 	"github.com/aperturerobotics/bifrost/peer"
 	signaling "github.com/aperturerobotics/bifrost/signaling/rpc"
 	signaling_rpc_client "github.com/aperturerobotics/bifrost/signaling/rpc/client"
@@ -25,6 +26,8 @@ import (
 	"github.com/sirupsen/logrus"
 
 	"verif/harness/lib"
+	"verif/harness/quiet"
+	"verif/harness/sigoracle"
 	"verif/harness/sigtrace"
 )
 
@@ -53,8 +56,10 @@ type clientEnd struct{ p *pipe }
 func (c *clientEnd) Context() context.Context { return c.p.ctx }
 func (c *clientEnd) Send(m *signaling.SessionRequest) error {
 	if b, ok := m.GetBody().(*signaling.SessionRequest_SendMsg); ok {
+		// the harness's own (stdlib) verdict about what the client put on the wire
+		v, claimed := sigoracle.Verdict(c.p.w.e.keys, b.SendMsg)
 		c.p.mtx.Lock()
-		c.p.sends = append(c.p.sends, sigtrace.Sub{Mid: c.p.src*100000 + int(b.SendMsg.GetSeqno()), Epoch: m.GetSessionSeqno(), Seqno: b.SendMsg.GetSeqno(), V: 1, Signer: c.p.src})
+		c.p.sends = append(c.p.sends, sigtrace.Sub{Mid: c.p.src*100000 + int(b.SendMsg.GetSeqno()), Epoch: m.GetSessionSeqno(), Seqno: b.SendMsg.GetSeqno(), V: v, Signer: claimed})
 		c.p.mtx.Unlock()
 	}
 	select {
@@ -170,12 +175,21 @@ func (r *relayClient) Session(ctx context.Context) (signaling.SRPCSignaling_Sess
 	sctx, scancel := context.WithCancel(context.WithValue(r.w.ctx, ctxKey{}, r.w.e.pids[r.src]))
 	p := &pipe{w: r.w, src: r.src, ctx: pctx, cancel: cancel, sctx: sctx, scancel: scancel, severed: make(chan struct{}), c2s: make(chan *signaling.SessionRequest, 16), s2c: make(chan *signaling.SessionResponse, 16)}
 	se := &serverEnd{p: p}
+	// the call is registered before its handler can log anything
 	r.w.mtx.Lock()
 	r.w.pipes = append(r.w.pipes, p)
 	p.id = len(r.w.pipes)
 	r.w.calls[fmt.Sprintf("%p", se)] = p.id
+	r.w.ends = append(r.w.ends, se)
+	r.w.active += 2
 	r.w.mtx.Unlock()
+	doneOne := func() {
+		r.w.mtx.Lock()
+		r.w.active--
+		r.w.mtx.Unlock()
+	}
 	go func() {
+		defer doneOne()
 		// the relay notices a client-side close unless the stream died silently
 		select {
 		case <-pctx.Done():
@@ -188,6 +202,7 @@ func (r *relayClient) Session(ctx context.Context) (signaling.SRPCSignaling_Sess
 		}
 	}()
 	go func() {
+		defer doneOne()
 		if err := r.w.srv.Session(se); err == signaling.ErrUserpedSession {
 			r.w.mtx.Lock()
 			r.w.usurped++
@@ -200,35 +215,42 @@ func (r *relayClient) Session(ctx context.Context) (signaling.SRPCSignaling_Sess
 }
 
 type engine struct {
-	a     *lib.Args
-	rng   *lib.Rng
-	m     *lib.Model
-	rep   *lib.Report
-	le    *logrus.Entry
-	keys  []crypto.PrivKey
-	pids  []peer.ID
-	pidIx map[string]int
+	a            *lib.Args
+	rng          *lib.Rng
+	m            *lib.Model
+	rep          *lib.Report
+	le           *logrus.Entry
+	keys         []*sigoracle.Key
+	pids         []peer.ID
+	pidIx        map[string]int
+	keep         []any // server stream ends of finished scenarios: their addresses are never reused
+	usurps       int
+	forcedCancel bool
 }
 
 type appEvent struct {
-	kind string // "send-ok", "send-err", "recv"
-	peer int
-	data string
-	at   int // global order
+	kind  string // "send-ok", "send-err", "send-cancelled", "recv"
+	peer  int
+	data  string
+	seqno uint64
+	tkr   string
 }
 
 type world struct {
 	ctx     context.Context // ends with the scenario
 	usurped int
-	foreign int // hook events of handlers of earlier scenarios (dropped)
 	sever   map[int]int // peer -> number of relayed messages until its stream dies silently (0 = not armed)
 	e       *engine
 	srv     *signaling_rpc_server.Server
 	mtx     sync.Mutex
-	log     []string
+	log     []string // relay hook lines + TX lines
+	clog    []string // client hook lines of both clients, in the order of their critical sections
+	tkrOf   map[string]int
 	calls   map[string]int
 	pipes   []*pipe
+	ends    []*serverEnd
 	app     []appEvent
+	active  int // goroutines started on behalf of Session RPCs that have not ended yet
 }
 
 // takeSever reports whether the stream of peer src dies with the relayed message being written now.
@@ -243,38 +265,41 @@ func (w *world) takeSever(src int) bool {
 	return n == 1
 }
 
+func lineKV(line, k string) string {
+	i := strings.Index(line, " "+k+"=")
+	if i < 0 {
+		return ""
+	}
+	rest := line[i+len(k)+2:]
+	if j := strings.IndexByte(rest, ' '); j >= 0 {
+		rest = rest[:j]
+	}
+	return rest
+}
+
+// sink receives the relay's hook lines; lines of calls this scenario did not start (a handler
+// of an earlier scenario finishing late) are not part of its trace.
 func (w *world) sink(line string) {
 	w.mtx.Lock()
 	defer w.mtx.Unlock()
-	// The hook sink is process-global: a relay handler of an EARLIER scenario that is still winding
-	// down (machine under load) emits its last events into the current world's sink. Every call of
-	// this world is registered in w.calls before its handler is started (relayClient.Session), and a
-	// still-running older handler keeps its stream object alive (no pointer reuse), so an event for an
-	// unregistered call belongs to an earlier world and is not part of this world's trace.
-	if !strings.HasPrefix(line, "TX ") {
-		if c := hookCall(line); c != "" {
-			if _, ok := w.calls[c]; !ok {
-				w.foreign++
-				return
-			}
+	if strings.HasPrefix(line, "ev=") {
+		if _, ok := w.calls[lineKV(line, "call")]; !ok {
+			return
 		}
 	}
 	w.log = append(w.log, line)
 }
 
-// hookCall extracts the `call=` field of a relay hook line ("" if absent).
-func hookCall(line string) string {
-	for _, f := range strings.Fields(line) {
-		if strings.HasPrefix(f, "call=") {
-			return f[len("call="):]
-		}
-	}
-	return ""
+// csink receives the clients' hook lines (one per tracker critical section, logged inside it).
+func (w *world) csink(line string) {
+	w.mtx.Lock()
+	w.clog = append(w.clog, line)
+	w.mtx.Unlock()
 }
 
-func (w *world) appLog(kind string, p int, data []byte) {
+func (w *world) appLog(ev appEvent) {
 	w.mtx.Lock()
-	w.app = append(w.app, appEvent{kind, p, string(data), len(w.app)})
+	w.app = append(w.app, ev)
 	w.mtx.Unlock()
 }
 
@@ -289,152 +314,288 @@ func (w *world) logTx(call int, m *signaling.SessionResponse) {
 	case *signaling.SessionResponse_ClearMsg:
 		w.sink(fmt.Sprintf("TX tx,c=%d,r=clear,v=%d", call, b.ClearMsg))
 	case *signaling.SessionResponse_RecvMsg:
-		id, _ := b.RecvMsg.GetSignedMsg().ParseFromPeerID()
-		src := w.e.pidIx[id.String()]
+		src := w.e.pidIx[sigoracle.From(b.RecvMsg)]
 		w.sink(fmt.Sprintf("TX tx,c=%d,r=recv,v=%d,m=%d", call, b.RecvMsg.GetSeqno(), src*100000+int(b.RecvMsg.GetSeqno())))
 	}
 }
 
+// quiesce: both logs stable and no goroutine of the process runnable (package quiet).
 func (w *world) quiesce(d time.Duration) {
-	stable, last := 0, -1
-	for i := 0; i < 4000 && stable < 3; i++ {
-		time.Sleep(d)
+	quiet.Settle(func() int {
 		w.mtx.Lock()
-		n := len(w.log)
-		w.mtx.Unlock()
-		if n == last {
-			stable++
-		} else {
-			stable, last = 0, n
-		}
-	}
+		defer w.mtx.Unlock()
+		return len(w.log) + len(w.clog) + len(w.app)
+	}, d, 3, 20*time.Second)
+}
+
+// side is one peer's application.
+type side struct {
+	ix   int
+	cl   *signaling_rpc_client.Client
+	mtx  sync.Mutex
+	ref  *signaling_rpc_client.ClientPeerRef
+	peer string // remote peer id string
+}
+
+func (s *side) cur() *signaling_rpc_client.ClientPeerRef {
+	s.mtx.Lock()
+	defer s.mtx.Unlock()
+	return s.ref
 }
 
 func (e *engine) scenario(kind string, nMsgs int) {
 	wctx, wcancel := context.WithCancel(context.Background())
 	defer wcancel()
-	w := &world{e: e, calls: map[string]int{}, ctx: wctx, sever: map[int]int{}}
+	w := &world{e: e, calls: map[string]int{}, ctx: wctx, sever: map[int]int{}, tkrOf: map[string]int{}}
+	nA, nB := nMsgs, 1+e.rng.Intn(nMsgs)
 	if kind == "usurp" {
-		// B's stream dies silently while the k-th relayed message is in flight to it
-		w.sever[2] = 1 + e.rng.Intn(nMsgs)
+		// the stream of one peer dies silently while the k-th message relayed to it is in flight
+		// (the first such scenario of a run: B's stream, with the first message)
+		e.usurps++
+		if e.usurps == 1 {
+			w.sever[2] = 1
+		} else if e.rng.Intn(2) == 0 {
+			w.sever[2] = 1 + e.rng.Intn((nA+1)/2)
+		} else {
+			w.sever[1] = 1 + e.rng.Intn((nB+1)/2)
+		}
 	}
 	w.srv = signaling_rpc_server.NewServerWithIdentify(e.le, func(ctx context.Context) (peer.ID, error) {
 		return ctx.Value(ctxKey{}).(peer.ID), nil
 	})
 	signaling_rpc_server.VerifSetSink(w.sink)
 	defer signaling_rpc_server.VerifSetSink(nil)
+	signaling_rpc_client.VerifSetSink(w.csink)
+	defer signaling_rpc_client.VerifSetSink(nil)
 	bo := &backoff.Backoff{BackoffKind: backoff.BackoffKind_BackoffKind_CONSTANT, Constant: &backoff.Constant{Interval: 1}}
 	ctx, cancel := context.WithCancel(context.Background())
 	defer cancel()
-	mk := func(i int) *signaling_rpc_client.Client {
-		c, err := signaling_rpc_client.NewClient(e.le, &relayClient{w: w, src: i}, e.keys[i], bo)
+	mk := func(i int) *side {
+		c, err := signaling_rpc_client.NewClient(e.le, &relayClient{w: w, src: i}, e.keys[i].SK, bo)
 		if err != nil {
 			panic(err)
 		}
+		s := &side{ix: i, cl: c, peer: e.pids[3-i].String()}
+		s.ref = c.AddPeerRef(s.peer)
+		w.mtx.Lock()
+		w.tkrOf[s.ref.VerifTrackerID()] = i
+		w.mtx.Unlock()
 		c.SetContext(ctx)
-		return c
+		return s
 	}
-	ca, cb := mk(1), mk(2)
-	refA := ca.AddPeerRef(e.pids[2].String())
-	refB := cb.AddPeerRef(e.pids[1].String())
-	var refMtx sync.Mutex
-	// B's application: receive forever (re-acquiring the ref when it is replaced)
+	sides := []*side{nil, mk(1), mk(2)}
+	// both applications receive forever (re-acquiring the ref when it is replaced)
 	recvCtx, recvCancel := context.WithCancel(ctx)
 	defer recvCancel()
-	go func() {
-		for recvCtx.Err() == nil {
-			refMtx.Lock()
-			r := refB
-			refMtx.Unlock()
-			rctx, rc := context.WithTimeout(recvCtx, 30*time.Millisecond)
-			m, err := r.Recv(rctx)
-			rc()
-			if err == nil && m != nil {
-				w.appLog("recv", 2, m.GetSignedMsg().GetData())
+	var apps sync.WaitGroup
+	for _, s := range sides[1:] {
+		s := s
+		apps.Add(1)
+		go func() {
+			defer apps.Done()
+			for recvCtx.Err() == nil {
+				r := s.cur()
+				rctx, rc := context.WithTimeout(recvCtx, 30*time.Millisecond)
+				m, err := r.Recv(rctx)
+				rc()
+				if err == nil && m != nil {
+					w.appLog(appEvent{kind: "recv", peer: s.ix, data: string(m.GetSignedMsg().GetData()), seqno: m.GetSeqno(), tkr: r.VerifTrackerID()})
+				}
 			}
-		}
-	}()
-	// A's application: send nMsgs messages sequentially (each waits for its ack)
-	var payloads [][]byte
-	var wg sync.WaitGroup
-	wg.Add(1)
+		}()
+	}
+	// the applications send their messages sequentially (each waits for its ack); now and then a
+	// caller gives up after 1-3 ms, and the next Send must still complete
+	known := map[string]bool{}
+	var stuckMtx sync.Mutex
 	stuck := ""
-	go func() {
-		defer wg.Done()
-		for i := 0; i < nMsgs; i++ {
-			p := append([]byte{byte(i)}, e.rng.Bytes(5)...)
-			w.mtx.Lock()
-			payloads = append(payloads, p)
-			w.mtx.Unlock()
-			sctx, sc := context.WithTimeout(ctx, 4*time.Second)
-			_, err := refA.Send(sctx, p)
-			sc()
-			if err != nil {
-				w.appLog("send-err", 1, p)
-				stuck = "a pending Send between two stably attached peers did not complete: " + err.Error()
-				return
-			}
-			w.appLog("send-ok", 1, p)
+	var senders sync.WaitGroup
+	startSender := func(s *side, n int, cancels bool) {
+		// all random choices are drawn here, in the scenario's own goroutine
+		type plan struct {
+			payload []byte
+			short   time.Duration
+			forced  bool // the caller has already given up when it calls Send: repeated until a Send does fail
 		}
-	}()
+		var plans []plan
+		for i := 0; i < n; i++ {
+			p := plan{payload: append([]byte{byte(s.ix), byte(i)}, e.rng.Bytes(5)...)}
+			if cancels && i > 0 && e.rng.Intn(4) == 0 {
+				p.short = time.Duration(1+e.rng.Intn(3)) * time.Millisecond
+			}
+			plans = append(plans, p)
+			if cancels && i == 0 && !e.forcedCancel {
+				// once per run: a Send whose caller is gone from the start (retried with fresh
+				// payloads in the unlikely case that the ack wins the race)
+				e.forcedCancel = true
+				for k := 0; k < 40; k++ {
+					plans = append(plans, plan{payload: append([]byte{byte(s.ix), 200, byte(k)}, e.rng.Bytes(4)...), short: time.Nanosecond, forced: true})
+				}
+			}
+		}
+		for _, p := range plans {
+			w.mtx.Lock()
+			known[string(p.payload)] = true
+			w.mtx.Unlock()
+		}
+		senders.Add(1)
+		go func() {
+			defer senders.Done()
+			forcedDone := false
+			for _, p := range plans {
+				if p.forced && forcedDone {
+					continue
+				}
+				r := s.cur()
+				d := 8 * time.Second
+				if p.short != 0 {
+					d = p.short
+				}
+				sctx, sc := context.WithTimeout(ctx, d)
+				m, err := r.Send(sctx, p.payload)
+				sc()
+				switch {
+				case err == nil:
+					w.appLog(appEvent{kind: "send-ok", peer: s.ix, data: string(p.payload), seqno: m.GetSeqno(), tkr: r.VerifTrackerID()})
+				case p.short != 0:
+					forcedDone = forcedDone || p.forced
+					w.appLog(appEvent{kind: "send-cancelled", peer: s.ix, data: string(p.payload)})
+				default:
+					w.appLog(appEvent{kind: "send-err", peer: s.ix, data: string(p.payload)})
+					stuckMtx.Lock()
+					stuck = fmt.Sprintf("a pending Send of peer %d between two stably attached peers did not complete: %v", s.ix, err)
+					stuckMtx.Unlock()
+					return
+				}
+			}
+		}()
+	}
 	var actions []string
-	if kind == "reattach" {
-		// while A sends, B drops and re-acquires its session a few times, then stays
+	total := nA
+	startSender(sides[1], nA, kind != "reattach")
+	if kind != "reattach" {
+		startSender(sides[2], nB, true)
+		total += nB
+		actions = append(actions, fmt.Sprintf("A sends %d, B sends %d (some callers give up after 1-3 ms)", nA, nB))
+	} else {
+		// while A sends, B drops and re-acquires its session a few times, then stays (and then sends too)
+		b := sides[2]
 		for i := 0; i < 3; i++ {
 			time.Sleep(time.Duration(200+e.rng.Intn(1500)) * time.Microsecond)
-			refMtx.Lock()
-			refB.Release()
-			refB = cb.AddPeerRef(e.pids[1].String())
-			refMtx.Unlock()
+			b.mtx.Lock()
+			b.ref.Release()
+			b.ref = b.cl.AddPeerRef(b.peer)
+			w.mtx.Lock()
+			w.tkrOf[b.ref.VerifTrackerID()] = 2
+			w.mtx.Unlock()
+			b.mtx.Unlock()
 			actions = append(actions, "B re-attaches")
 		}
+		startSender(b, nB, false)
+		total += nB
+		actions = append(actions, fmt.Sprintf("A sends %d; B sends %d once it stays", nA, nB))
 	}
 	done := make(chan struct{})
-	go func() { wg.Wait(); close(done) }()
+	go func() { senders.Wait(); close(done) }()
 	select {
 	case <-done:
-	case <-time.After(10 * time.Second):
-		stuck = "sends did not finish within 10 s"
+	case <-time.After(40 * time.Second):
+		stuckMtx.Lock()
+		stuck = "sends did not finish within 40 s"
+		stuckMtx.Unlock()
 	}
 	w.quiesce(2 * time.Millisecond)
 	// ---- monitors (model independent) ----
 	mon := ""
 	key := "sige2e:" + kind
+	// C21, happens-before sound. The applications log from their own goroutines, so "B logged the
+	// delivery before A logged the success" is not an order of the protocol. The order that is: the
+	// critical section in which the receiver's Recv took message q (hook recvstep, flag=true,
+	// recv=q: from then on the message is the application's) precedes the critical section in which
+	// the sender's Send saw its ack (hook sendstep, a=q, acked=true). Both are logged inside their
+	// critical sections into one list, so causal order is list order. In addition the partner's
+	// application must actually have recorded the payload (it may take a moment: wait, bounded).
 	w.mtx.Lock()
 	app := append([]appEvent(nil), w.app...)
 	w.mtx.Unlock()
-	recvAt := map[string]int{}
-	recvCount := map[string]int{}
 	for _, a := range app {
-		if a.kind == "recv" {
-			if _, ok := recvAt[a.data]; !ok {
-				recvAt[a.data] = a.at
+		if a.kind != "send-ok" || mon != "" {
+			continue
+		}
+		deadline := time.Now().Add(10 * time.Second)
+		for {
+			w.mtx.Lock()
+			got := false
+			for _, b := range w.app {
+				if b.kind == "recv" && b.peer == 3-a.peer && b.data == a.data {
+					got = true
+				}
 			}
-			recvCount[a.data]++
+			w.mtx.Unlock()
+			if got || time.Now().After(deadline) {
+				if !got {
+					mon = fmt.Sprintf("Send of peer %d reported success but the partner's application never received that message", a.peer)
+					key = "sige2e.ack-before-delivery:" + kind
+				}
+				break
+			}
+			time.Sleep(time.Millisecond)
 		}
 	}
-	known := map[string]bool{}
-	for _, p := range payloads {
-		known[string(p)] = true
+	w.mtx.Lock()
+	clog := append([]string(nil), w.clog...)
+	tkrOf := map[string]int{}
+	for k, v := range w.tkrOf {
+		tkrOf[k] = v
 	}
+	app = append([]appEvent(nil), w.app...)
+	knownNow := map[string]bool{}
+	for k := range known {
+		knownNow[k] = true
+	}
+	w.mtx.Unlock()
 	for _, a := range app {
 		switch a.kind {
 		case "send-ok":
-			at, ok := recvAt[a.data]
-			if !ok || at > a.at {
-				mon = "Send reported success before the partner's application had received the message"
+			q := strconv.FormatUint(a.seqno, 10)
+			start, acked := -1, -1
+			for i, l := range clog {
+				if strings.HasPrefix(l, "ev=sendstep ") && lineKV(l, "tkr") == a.tkr && lineKV(l, "a") == q {
+					if start < 0 {
+						start = i
+					}
+					if lineKV(l, "acked") == "true" {
+						acked = i
+					}
+				}
+			}
+			taken := false
+			for i := start + 1; start >= 0 && i < acked; i++ {
+				l := clog[i]
+				if strings.HasPrefix(l, "ev=recvstep ") && tkrOf[lineKV(l, "tkr")] == 3-a.peer && lineKV(l, "flag") == "true" && lineKV(l, "recv") == q {
+					taken = true
+				}
+			}
+			if acked < 0 && mon == "" {
+				mon = fmt.Sprintf("Send of message %d by peer %d reported success but its tracker never logged the acknowledged step", a.seqno, a.peer)
+				key = "sige2e.ack-before-delivery:" + kind
+			}
+			if acked >= 0 && !taken && mon == "" {
+				mon = fmt.Sprintf("Send of message %d by peer %d saw its acknowledgement (client event %d) before any Recv of the partner had taken that message: success reported before the partner's application had received it", a.seqno, a.peer, acked)
 				key = "sige2e.ack-before-delivery:" + kind
 			}
 		case "recv":
-			if !known[a.data] {
+			if !knownNow[a.data] && mon == "" {
 				mon = "the partner's application received a payload that was never sent"
 			}
 		}
 	}
+	stuckMtx.Lock()
 	if stuck != "" && mon == "" {
 		mon = stuck
 		key = "sige2e.progress:" + kind
 	}
+	stuckMtx.Unlock()
 	// relay trace validation
 	w.mtx.Lock()
 	lines := append([]string(nil), w.log...)
@@ -466,7 +627,7 @@ func (e *engine) scenario(kind string, nMsgs int) {
 		impl = "trace-accepted-by-real-system"
 	}
 	br := "e2e." + kind
-	e.rep.Case(fmt.Sprintf("sige2e[%s] msgs=%d %s", kind, nMsgs, strings.Join(actions, "; ")), mshort, impl, br, true)
+	e.rep.Case(fmt.Sprintf("sige2e[%s] msgs=%d %s", kind, total, strings.Join(actions, "; ")), mshort, impl, br, true)
 	if mshort != impl || mon != "" {
 		d := lib.Disagreement{Op: lib.Trunc(op), Model: lib.Trunc(model), Impl: impl, Branch: br, Key: key}
 		if mon != "" {
@@ -475,6 +636,18 @@ func (e *engine) scenario(kind string, nMsgs int) {
 			d.Monitor, d.What = "unconfirmed", "the composed run is not a run of the relay model: "+lib.Trunc(model)
 		}
 		e.rep.Disagree(d)
+	}
+	recvCount := map[string]int{}
+	nOK, nCancelled := 0, 0
+	for _, a := range app {
+		switch a.kind {
+		case "recv":
+			recvCount[a.data]++
+		case "send-ok":
+			nOK++
+		case "send-cancelled":
+			nCancelled++
+		}
 	}
 	dups := 0
 	for _, c := range recvCount {
@@ -488,26 +661,54 @@ func (e *engine) scenario(kind string, nMsgs int) {
 		e.rep.Case("sige2e[usurp] relay replaced a silently dead stream", "ok", "ok", "e2e.usurp.replaced", true)
 	}
 	w.mtx.Unlock()
-	e.rep.Extra["messages"] = e.rep.Extra["messages"].(int) + len(payloads)
+	if nCancelled > 0 {
+		e.rep.Case("sige2e a caller gave up on a Send; later sends completed", "ok", "ok", "e2e.send-cancelled", true)
+	}
+	e.rep.Extra["messages"] = e.rep.Extra["messages"].(int) + total
+	e.rep.Extra["sends_ok"] = e.rep.Extra["sends_ok"].(int) + nOK
+	e.rep.Extra["sends_cancelled"] = e.rep.Extra["sends_cancelled"].(int) + nCancelled
 	e.rep.Extra["redelivered_after_reattach"] = e.rep.Extra["redelivered_after_reattach"].(int) + dups
 	e.rep.Extra["relay_events"] = e.rep.Extra["relay_events"].(int) + strings.Count(tr, ";") + 1
+	e.rep.Extra["client_events"] = e.rep.Extra["client_events"].(int) + len(clog)
+	// tear down and wait for everything this scenario started (nothing may log into the next one)
 	recvCancel()
-	refA.Release()
-	refMtx.Lock()
-	refB.Release()
-	refMtx.Unlock()
+	for _, s := range sides[1:] {
+		s.mtx.Lock()
+		s.ref.Release()
+		s.mtx.Unlock()
+	}
 	cancel()
-	ca.ClearContext()
-	cb.ClearContext()
-	time.Sleep(2 * time.Millisecond)
-	_ = bytes.Equal
+	wcancel()
+	for _, s := range sides[1:] {
+		s.cl.ClearContext()
+	}
+	fin := make(chan struct{})
+	go func() { apps.Wait(); close(fin) }()
+	select {
+	case <-fin:
+	case <-time.After(10 * time.Second):
+	}
+	for t0 := time.Now(); time.Since(t0) < 10*time.Second; time.Sleep(200 * time.Microsecond) {
+		w.mtx.Lock()
+		n := w.active
+		w.mtx.Unlock()
+		if n == 0 && quiet.Busy() == 0 {
+			break
+		}
+	}
+	w.mtx.Lock()
+	for _, se := range w.ends {
+		e.keep = append(e.keep, se)
+	}
+	w.mtx.Unlock()
 }
 
 func (e *engine) run() {
-	e.rep.Rule = "two real signaling clients and the real relay composed through in-memory SRPC stream pairs: A sends 3–10 messages sequentially to B (each waits for its ack) while B's application receives; stable, with B dropping/re-acquiring its session mid-flight, and with B's stream dying silently while a relayed message is in flight (B reconnects while the relay still holds the old stream: the usurp path); monitors: Send success only after the partner application received the message, all sends complete; the relay's trace replayed on the Lean LTS; distinct = scenario"
-	e.rep.Require("e2e.stable", "e2e.reattach", "e2e.usurp", "e2e.usurp.replaced")
-	e.rep.Extra["messages"], e.rep.Extra["redelivered_after_reattach"], e.rep.Extra["relay_events"] = 0, 0, 0
-	e.rep.Extra["usurped_streams"] = 0
+	e.rep.Rule = "two real signaling clients and the real relay composed through in-memory SRPC stream pairs: both peers send 1–10 messages sequentially (each waits for its ack; every fourth caller gives up after 1-3 ms and the next Send must complete) while both applications receive; stable, with B dropping/re-acquiring its session mid-flight, and with the stream of either peer dying silently while a relayed message is in flight (it reconnects while the relay still holds the old stream: the usurp path); monitors: a Send sees its ack only after a Recv of the partner took that message (order of the clients' critical sections) and the partner's application records it, all served sends complete; the relay's trace replayed on the Lean LTS; distinct = scenario"
+	e.rep.Require("e2e.stable", "e2e.reattach", "e2e.usurp", "e2e.usurp.replaced", "e2e.send-cancelled")
+	for _, k := range []string{"messages", "redelivered_after_reattach", "relay_events", "usurped_streams", "sends_ok", "sends_cancelled", "client_events"} {
+		e.rep.Extra[k] = 0
+	}
 	for i := 0; i < 4*e.a.Scale; i++ {
 		e.scenario("stable", 3+e.rng.Intn(8))
 		e.scenario("reattach", 3+e.rng.Intn(8))
@@ -522,26 +723,17 @@ func main() {
 	lg.SetOutput(io.Discard)
 	e := &engine{a: a, rng: lib.NewRng(a.Seed), m: lib.NewModel(a.Driver), le: logrus.NewEntry(lg), pidIx: map[string]int{}}
 	e.rep = lib.NewReport("sige2e", a)
-	type kp struct {
-		k  crypto.PrivKey
-		id peer.ID
-	}
-	var kps []kp
+	var kps []*sigoracle.Key
 	for i := 0; i < 2; i++ {
-		p, err := peer.NewPeer(nil)
-		if err != nil {
-			panic(err)
-		}
-		k, _ := p.GetPrivKey(context.Background())
-		kps = append(kps, kp{k, p.GetPeerID()})
+		kps = append(kps, sigoracle.NewKey(e.rng.Bytes(32)))
 	}
-	sort.Slice(kps, func(i, j int) bool { return kps[i].id.String() < kps[j].id.String() })
-	e.keys = []crypto.PrivKey{nil}
+	sort.Slice(kps, func(i, j int) bool { return kps[i].IDStr < kps[j].IDStr })
+	e.keys = []*sigoracle.Key{nil}
 	e.pids = []peer.ID{""}
 	for i, x := range kps {
-		e.keys = append(e.keys, x.k)
-		e.pids = append(e.pids, x.id)
-		e.pidIx[x.id.String()] = i + 1
+		e.keys = append(e.keys, x)
+		e.pids = append(e.pids, x.ID)
+		e.pidIx[x.IDStr] = i + 1
 	}
 	switch a.Prop {
 	case "C21", "C23":
